@@ -96,7 +96,7 @@ impl Len {
 
     /// slice_len
     pub fn slice_len(&self) -> usize {
-        self.consumed + self.n as usize
+        self.consumed.saturating_add(self.n as usize)
     }
 }
 
